@@ -5,6 +5,31 @@ import json, subprocess
 ALL = ["C%02d" % i for i in range(1, 21)]
 
 CHECKS = {
+ "C03": dict(
+   text="Mirror monitor: derivation trees generated over the whole grammar are printed with randomised legal layout and parsed; the AST skeleton must equal the derivation (rule order, names, sockets, kinds, assignment operators, generic parameters, nesting of choices/groups/occurrences/member keys/operators, literal kinds and values). Disagreements are reproduced under a canonical rendering, shrunk on the derivation tree and explained by labelled repairs before lookup in known_findings.json. This decides 'derivable => accepted and mirrored' on the generated texts; the converse direction (non-derivable => rejected) is only exercised through C05/C15's mutants and is not judged here.",
+   note="The harness-side grammar knowledge is the printer + skeleton (vh/src/gs.rs, skel.rs), written from RFC 8610 App. B / RFC 9682; group-vs-type rule ambiguity avoided by construction. Known findings: group rule with a bare entry, parenthesised type at the head of a group entry, '#' followed by white space and a digit or '('. Two defects repaired by fix: commits (.cborseq, byte-string member keys).",
+   technique="runtime differential monitor: generated derivation -> printed text -> parser; invariant = skeleton equality; shrink + labelled-repair attribution",
+   design_ref="DESIGN.md section 3 C03"),
+ "C06": dict(
+   text="Round-trip monitor on accepted documents (generated derivations with and without comments, repository fixtures whole and rule-sliced): T1 = Display(parse(D)) must parse, Skel(parse(T1)) == Skel(parse(D)), Display(parse(T1)) == T1. Shrunk on the derivation tree; comment-induced disagreements are separated from the rest by re-rendering the same derivation without comments.",
+   note="The crate's parser is the observer of the formatter (C03 checks the parser). Known findings: formatter writes no commas (so the parser's '#'+white-space deviation resurfaces), comment emission. Four formatter defects repaired by fix: commits.",
+   technique="runtime round-trip monitor (parse -> format -> parse -> format) with skeleton equality, shrink + labelled-repair attribution",
+   design_ref="DESIGN.md section 3 C06"),
+ "C07": dict(
+   text="Value-first literal monitor: a value is drawn, spelled in a randomly chosen RFC 8610/9682/4648 form and placed in one of 24 syntactic positions; the AST field must carry exactly that value (floats by bits). 67 invalid or unrepresentable spellings in the same positions must be rejected.",
+   note="Decimal float spellings are mapped to f64 by Rust's standard library; hexfloats are built exactly as m*2^e. Underflow is rounding (not judged). Two defects repaired by fix: commits (1e999 -> inf, dropped invalid \\u escapes).",
+   technique="runtime reference-value monitor (value known by construction) + invalid-input rejection monitor",
+   design_ref="DESIGN.md section 3 C07"),
+ "C12": dict(
+   text="Construction-based monitor: (a) rule lists over a small name pool with every mix of kinds and assignment operators; the expected accept/reject verdict, the offending rule and its line are known by construction and cross-checked by an independent pass; (b) derivations whose references all resolve with zero or one planted unresolved reference (fresh name at the k-th reference position, generic parameter out of scope, bare name of a socket); CDDL::from_slice must reject exactly those and name the reference.",
+   note="Prelude = the 40 names listed in cddl.pest. One defect repaired by a fix: commit ($socket defined the plain name).",
+   technique="runtime monitor with oracle by construction (planted defects), error message/position checks",
+   design_ref="DESIGN.md section 3 C12"),
+ "C15": dict(
+   text="Invariant monitor on outputs: every span of the AST of accepted documents is checked against the source text (bounds, UTF-8 boundaries, line number, containment in parent, sibling order, identifier text, rule start, printer-recorded rule offsets); every Error::PARSER position of rejected single-edit mutants is checked (index/range inside input on character boundaries, non-inverted, line/column of index).",
+   note="(0,0,0) spans on synthesised nodes are skipped and counted. Two defects repaired by fix: commits (error range inside a multi-byte character, member-key spans covering the whole entry).",
+   technique="runtime invariant monitor over returned AST spans and error positions",
+   design_ref="DESIGN.md section 3 C15"),
  "C05": dict(
    text="Crash/resource monitors around every public entry point run in crash-isolated worker processes (8 MiB stack, debug assertions + overflow checks): panic hook + catch_unwind, death by signal attributed to the journaled call (stack overflow call site recovered by re-running the case under gdb), CPU-time watchdog, thread-CPU-time scaling ladders up to the property's bound (64 KiB, depth 64) with a local-degree growth rule, hostile templates (cyclic / ill-typed schemas x documents), mutated fixtures, token soup, hostile CBOR heads and numeric extremes. Exploration: held on the executions listed in the evidence; sampled, not exhaustive.",
    note="CPU time from /proc and CLOCK_THREAD_CPUTIME_ID, never wall clock (a wall-clock watchdog only yields inconclusive). Super-polynomial = local degree > 6 between consecutive ladder sizes, confirmed by re-measurement. Known findings (alias-cycle stack overflows by call site, generic self-instantiation, exponential parse on unclosed brackets) are listed in known_findings.json; 8 defects were repaired by fix: commits.",
